@@ -33,12 +33,11 @@ Theorems (all for ALL inputs of the stated shape; no bound on sizes, counts or l
 * rpmlib(): `rpmlib_declared`, `build_struct_features_declared` — the nine STRUCTURAL features (compressor — fix 9787c3c: xz, bzip2 —,
   capabilities, large files, compressed file names, file digests, "./" prefix) are declared for every configuration.
   The four CONTENT features rpmbuild derives from dependencies and scriptlets (TildeInVersions, CaretInVersions, RichDependencies,
-  ScriptletInterpreterArgs) are never declared by `prepare_data` (`allRequires_mem`): the clause "with the rpmlib() features it uses
-  declared" is REFUTED for the current code in general form — `tilde_undeclared`, `caret_undeclared`, `rich_undeclared`,
-  `interp_args_undeclared` (via `content_undeclared`; `evrHasChar_built`, `hasRichDep_built`, `hasInterpArgs_built` express rpm's three
-  tests on the built header in terms of the configuration) — and PROVED for the configurations that use none of the four:
-  `build_rpmlib_valid_partial` under `PlainFeatures` (`plain_of_user`: from the caller's own arguments).
-  Full statement, false today: `∀ x pre, RpmlibDeclared (C06.hdrOf x) pre`.
+  ScriptletInterpreterArgs) are declared since the fix of builder.rs (`Bld.versionHas`, `usesRichDeps`, `usesInterpArgs`, `pushFeature`):
+  `content_declared`; `evrHasChar_built`, `hasRichDep_built`, `hasInterpArgs_built` express rpm's three tests on the built header in
+  terms of the configuration, `versionHas_of_header` / `usesRichDeps_of_header` / `usesInterpArgs_of_header` show that they imply the
+  builder's own tests (the requirements the builder adds use none of the features: `allRequires_cases`, `contentDeps_clean`).
+  `build_rpmlib_valid` — all thirteen features, for EVERY configuration: `∀ x pre, RpmlibDeclared (C06.hdrOf x) pre`.
 * `cpioCheck_archiveOf`, `cpioCheck_stripped`, `headerFiles_built`, `payload_valid_std`, `payload_valid_large`
   — the archive the builder writes passes the cpio rules — read by the Spec's OWN newc reader, a transcription of rpm's
   `rpmcpioHeaderRead` (`RpmValid.readEntry`; `Lemmas/RpmCpio.lean`), not by the model of rpm-rs' reader — against the header built
@@ -46,7 +45,7 @@ Theorems (all for ALL inputs of the stated shape; no bound on sizes, counts or l
   `plus_field_rejected` — the two readers differ where they should (`+000000b`).
 * `compressor_magic_valid` — the header names the compressor; the codec crates enter through `CodecMagic`
   (a compressed stream starts with its format's magic; exercised on every generated package, not proved).
-* `build_valid` — the whole statement: write → parse gives back the built package and `PackageValid` holds (with `PlainFeatures`).
+* `build_valid` — the whole statement: write → parse gives back the built package and `PackageValid` holds.
 * `sign_clear_valid_discharged`, `sigsOk_of_build` — the same with NOTHING assumed about the legacy tags: they are computed by
   the model of `SignatureHeaderBuilder::build` (`Sign.sigBuilderBuild`: parse, `match` on the algorithm — table scraped from the
   source by tools/gen/sig_algs.py —, encode), and every arm selects RPMSIGTAG_RSA / RPMSIGTAG_DSA (`Sign.legacyTagOf_mem_range`).
@@ -518,9 +517,9 @@ theorem build_flags_valid (x : Ctx) : PayloadFlagsOk (C06.hdrOf x) := by
 
 theorem rpmlibName_eq (f v : Bytes) : (rpmlib f v).name = rpmlibName f := rfl
 
-theorem mem_names {c : Cfg} {f v : Bytes} (h : rpmlib f v ∈ allRequires c) :
+theorem mem_names {c : Cfg} {f v : Bytes} (h : rpmlib f v ∈ baseRequires c) :
     rpmlibName f ∈ (allRequires c).map (·.name) := by
-  rw [← rpmlibName_eq f v]; exact List.mem_map_of_mem h
+  rw [← rpmlibName_eq f v]; exact List.mem_map_of_mem ((C06.base_prefix_all c).subset h)
 
 /-- **rpmlib_declared**: the requirements the builder writes always contain the three base features, the
 payload compressor's feature for zstd / xz / bzip2 (fix 9787c3c added xz and bzip2), `FileCaps` when a
@@ -535,22 +534,25 @@ theorem rpmlib_declared (c : Cfg) :
     (usesCaps c = true → rpmlibName fFileCaps ∈ (allRequires c).map (·.name)) ∧
     (usesLargeFiles c = true → rpmlibName fLargeFiles ∈ (allRequires c).map (·.name)) := by
   refine ⟨?_, ?_, ?_, ?_, ?_, ?_, ?_, ?_⟩
-  · exact mem_names (v := [51, 46, 48, 46, 52, 45, 49]) (by unfold allRequires; simp [fCompressedFileNames])
-  · exact mem_names (v := [52, 46, 54, 46, 48, 45, 49]) (by unfold allRequires; simp [fFileDigests])
-  · exact mem_names (v := [52, 46, 48, 45, 49]) (by unfold allRequires; simp [fPayloadFilesHavePrefix])
+  · exact mem_names (v := [51, 46, 48, 46, 52, 45, 49]) (by unfold baseRequires; simp [fCompressedFileNames])
+  · exact mem_names (v := [52, 46, 54, 46, 48, 45, 49]) (by unfold baseRequires; simp [fFileDigests])
+  · exact mem_names (v := [52, 46, 48, 45, 49]) (by unfold baseRequires; simp [fPayloadFilesHavePrefix])
   · intro l hl
-    exact mem_names (v := [53, 46, 52, 46, 49, 56, 45, 49]) (by unfold allRequires; simp [hl, fPayloadIsZstd])
+    exact mem_names (v := [53, 46, 52, 46, 49, 56, 45, 49]) (by unfold baseRequires; simp [hl, fPayloadIsZstd])
   · intro l hl
-    exact mem_names (v := [53, 46, 50, 45, 49]) (by unfold allRequires; simp [hl, fPayloadIsXz])
+    exact mem_names (v := [53, 46, 50, 45, 49]) (by unfold baseRequires; simp [hl, fPayloadIsXz])
   · intro l hl
-    exact mem_names (v := [51, 46, 48, 46, 53, 45, 49]) (by unfold allRequires; simp [hl, fPayloadIsBzip2])
+    exact mem_names (v := [51, 46, 48, 46, 53, 45, 49]) (by unfold baseRequires; simp [hl, fPayloadIsBzip2])
   · intro h
-    exact mem_names (v := [52, 46, 54, 46, 49, 45, 49]) (by unfold allRequires; simp [h, fFileCaps])
+    exact mem_names (v := [52, 46, 54, 46, 49, 45, 49]) (by unfold baseRequires; simp [h, fFileCaps])
   · intro h
-    exact mem_names (v := [52, 46, 49, 50, 46, 48, 45, 49]) (by unfold allRequires; simp [h, fLargeFiles])
+    exact mem_names (v := [52, 46, 49, 50, 46, 48, 45, 49]) (by unfold baseRequires; simp [h, fLargeFiles])
 
 theorem allRequires_ne (c : Cfg) : allRequires c ≠ [] := by
-  unfold allRequires; simp
+  intro h
+  have hp := C06.base_prefix_all c
+  rw [h, List.prefix_nil] at hp
+  revert hp; unfold baseRequires; simp
 
 /-- REQUIRENAME of the built header = the names of `allRequires`, in order -/
 theorem requireNames_built (x : Ctx) : strsAt (C06.hdrOf x) tREQUIRENAME = (allRequires x.c).map (·.name) :=
@@ -607,11 +609,9 @@ theorem build_struct_features_declared (x : Ctx) (pre : Bool) :
 
 /-! ### the four features rpmbuild derives from the content of dependencies and scriptlets
 
-`prepare_data` (builder.rs:782-811) pushes the rpmlib() requirements listed in `rpmlib_declared` and nothing else. Whether a
-version holds `~` or `^`, a dependency is a rich one, a scriptlet interpreter has arguments is never looked at. So the clause
-"with the rpmlib() features it uses declared" holds exactly for the configurations that use none of the four (`PlainFeatures`,
-`build_rpmlib_valid_partial`) and FAILS for the others unless the caller adds the requirement by hand (`tilde_undeclared`,
-`caret_undeclared`, `rich_undeclared`, `interp_args_undeclared`). -/
+Since the fix "the builder declares the rpmlib() features a package uses through the content of its dependencies and scriptlets"
+`prepare_data` looks at the versions of all dependencies (`Bld.versionHas`), the names of the six kinds that may be rich
+(`Bld.usesRichDeps`) and the interpreter lists (`Bld.usesInterpArgs`) and pushes the missing requirement (`Bld.pushFeature`). -/
 
 /-- the dependency lists whose versions `haveCharInDep` scans, as `prepare_data` writes them (PROVIDE, REQUIRE, OBSOLETE, CONFLICT,
 SUGGEST, ENHANCE, RECOMMEND, SUPPLEMENT; the builder has no ORDER / TRIGGER entries) -/
@@ -670,165 +670,178 @@ theorem hasInterpArgs_built (x : Ctx) :
   have h9 := strsAt_scrProg (find_slot_at (x := x) 93 (scrProg (·.postUntrans)) rfl (t := 5106) rfl)
   simp only [hasInterpArgs, progTags, List.any_cons, List.any_nil, Bool.or_false, h1, h2, h3, h4, h5, h6, h7, h8, h9, scriptletsOf]
 
-/-- a configuration that uses none of the four content features: no `~` / `^` in any version the package writes, no rich
-dependency, no scriptlet interpreter with arguments (stated on the lists as written; `plain_of_user` derives it from the
-caller's own arguments) -/
-structure PlainFeatures (c : Cfg) : Prop where
-  tilde : ∀ d ∈ evrDeps c, 126 ∉ d.version
-  caret : ∀ d ∈ evrDeps c, 94 ∉ d.version
-  rich : ∀ d ∈ richDeps c, d.name.head? ≠ some 40
-  args : ∀ s ∈ scriptletsOf c, (progOf s).length ≤ 1
+/-! #### `pushFeature` -/
 
-theorem contentFeatures_plain {x : Ctx} (hp : PlainFeatures x.c) : contentFeatures (C06.hdrOf x) = [] := by
-  have h1 : evrHasChar (C06.hdrOf x) 126 = false := by
-    rw [evrHasChar_built, List.any_eq_false]
-    intro d hd; simpa using hp.tilde d hd
-  have h2 : evrHasChar (C06.hdrOf x) 94 = false := by
-    rw [evrHasChar_built, List.any_eq_false]
-    intro d hd; simpa using hp.caret d hd
-  have h3 : hasRichDep (C06.hdrOf x) = false := by
-    rw [hasRichDep_built, List.any_eq_false]
-    intro d hd; simpa using hp.rich d hd
-  have h4 : hasInterpArgs (C06.hdrOf x) = false := by
-    rw [hasInterpArgs_built, List.any_eq_false]
-    intro s hs; have := hp.args s hs; simp only [decide_eq_true_eq]; omega
-  simp [contentFeatures, h1, h2, h3, h4]
+theorem subset_pushFeature (reqs : List Dep) (u : Bool) (f v : Bytes) : ∀ d ∈ reqs, d ∈ pushFeature reqs u f v := by
+  intro d hd; unfold pushFeature; split
+  · exact List.mem_append_left _ hd
+  · exact hd
 
-/-- **rpmlib, partial** (the full statement — `∀ x pre, RpmlibDeclared (C06.hdrOf x) pre` — is FALSE of the current code, see the
-four `*_undeclared` theorems): the built header declares every rpmlib() feature it uses, for every configuration that uses none of
-TildeInVersions / CaretInVersions / RichDependencies / ScriptletInterpreterArgs -/
-theorem build_rpmlib_valid_partial (x : Ctx) (pre : Bool) (hp : PlainFeatures x.c) : RpmlibDeclared (C06.hdrOf x) pre := by
-  intro f hf
-  simp only [featuresUsed, contentFeatures_plain hp, List.append_nil] at hf
-  exact build_struct_features_declared x pre f hf
+/-- after its turn a used feature is required by name — pushed now, or already there -/
+theorem name_mem_pushFeature (reqs : List Dep) (f v : Bytes) :
+    rpmlibName f ∈ (pushFeature reqs true f v).map (·.name) := by
+  unfold pushFeature
+  by_cases h : (reqs.any fun d => d.name == (rpmlib f v).name) = true
+  · simp only [h, Bool.not_true, Bool.and_false, Bool.false_eq_true, if_false]
+    obtain ⟨d, hd, he⟩ := List.any_eq_true.mp h
+    rw [rpmlibName_eq] at he
+    exact List.mem_map.mpr ⟨d, hd, by simpa using he⟩
+  · simp only [h, Bool.not_false, Bool.and_true, if_true]
+    exact List.mem_map.mpr ⟨rpmlib f v, by simp, rfl⟩
 
-/-- the names of the requirements `prepare_data` adds by itself -/
-def libRequireNames : List Bytes :=
-  [rpmlibName fCompressedFileNames, rpmlibName fFileDigests, rpmlibName fPayloadFilesHavePrefix, rpmlibName fPayloadIsZstd,
-   rpmlibName fPayloadIsXz, rpmlibName fPayloadIsBzip2, rpmlibName fFileCaps, rpmlibName fLargeFiles]
-
-/-- **what `prepare_data` adds to the requirements** (builder.rs:782-811): eight `rpmlib(…)` names at most, with versions free of
-`~` and `^` — and never one of the four content features -/
-theorem allRequires_mem {c : Cfg} {d : Dep} (h : d ∈ allRequires c) :
-    d ∈ c.requires ∨ (d.name ∈ libRequireNames ∧ 126 ∉ d.version ∧ 94 ∉ d.version) := by
-  unfold allRequires at h
-  simp only [List.mem_append, List.mem_cons, List.mem_nil_iff, or_false] at h
-  rcases h with (((h | h) | h) | h) | h
+theorem mem_pushFeature {reqs : List Dep} {u : Bool} {f v : Bytes} {d : Dep} (h : d ∈ pushFeature reqs u f v) :
+    d ∈ reqs ∨ d = rpmlib f v := by
+  unfold pushFeature at h; split at h
+  · rcases List.mem_append.mp h with h | h
+    · exact Or.inl h
+    · exact Or.inr (by simpa using h)
   · exact Or.inl h
-  · rcases h with rfl | rfl | rfl <;> exact Or.inr (by decide)
-  · split at h
-    · simp only [List.mem_singleton] at h; subst h; exact Or.inr (by decide)
-    · simp only [List.mem_singleton] at h; subst h; exact Or.inr (by decide)
-    · simp only [List.mem_singleton] at h; subst h; exact Or.inr (by decide)
-    · cases h
-  · split at h
-    · simp only [List.mem_singleton] at h; subst h; exact Or.inr (by decide)
-    · cases h
-  · split at h
-    · simp only [List.mem_singleton] at h; subst h; exact Or.inr (by decide)
-    · cases h
 
-/-- **a content feature that is used stays undeclared** unless the caller wrote the requirement himself -/
-theorem content_undeclared (x : Ctx) (pre : Bool) {f : Bytes} (hused : f ∈ contentFeatures (C06.hdrOf x))
-    (hlib : rpmlibName f ∉ libRequireNames) (huser : ∀ d ∈ x.c.requires, d.name ≠ rpmlibName f) :
-    ¬ RpmlibDeclared (C06.hdrOf x) pre := by
-  intro h
-  have hm := h f (by simp only [featuresUsed, List.mem_append]; exact Or.inr hused)
-  rw [requireNames_built] at hm
-  obtain ⟨d, hd, hn⟩ := List.mem_map.mp hm
-  rcases allRequires_mem hd with hu | ⟨hl, _⟩
-  · exact huser d hu hn
-  · exact hlib (hn ▸ hl)
+theorem names_mono_pushFeature {reqs : List Dep} {n : Bytes} (h : n ∈ reqs.map (·.name)) (u : Bool) (f v : Bytes) :
+    n ∈ (pushFeature reqs u f v).map (·.name) := by
+  obtain ⟨d, hd, rfl⟩ := List.mem_map.mp h
+  exact List.mem_map_of_mem (subset_pushFeature reqs u f v d hd)
 
-/-- **REFUTED for the current code — TildeInVersions**: a version with `~` reaches PROVIDEVERSION through the self-provide, rpmbuild
-would require `rpmlib(TildeInVersions) <= 4.10.0-1` (build/pack.c), `prepare_data` does not -/
-theorem tilde_undeclared (x : Ctx) (pre : Bool) (hv : 126 ∈ x.c.version)
-    (huser : ∀ d ∈ x.c.requires, d.name ≠ rpmlibName fTildeInVersions) : ¬ RpmlibDeclared (C06.hdrOf x) pre := by
-  refine content_undeclared x pre (f := fTildeInVersions) ?_ (by decide) huser
-  have : evrHasChar (C06.hdrOf x) 126 = true := by
-    rw [evrHasChar_built, List.any_eq_true]
-    exact ⟨depEq x.c.name x.c.version, by simp [evrDeps, allProvides], by simpa [depEq] using hv⟩
-  simp [contentFeatures, this]
+/-- the four requirements the content loop can push -/
+def contentDeps : List Dep :=
+  [rpmlib fTildeInVersions [52, 46, 49, 48, 46, 48, 45, 49], rpmlib fCaretInVersions [52, 46, 49, 53, 46, 48, 45, 49],
+   rpmlib fRichDependencies [52, 46, 49, 50, 46, 48, 45, 49], rpmlib fScriptletInterpreterArgs [52, 46, 48, 46, 51, 45, 49]]
 
-/-- **REFUTED — CaretInVersions** (`rpmlib(CaretInVersions) <= 4.15.0-1`) -/
-theorem caret_undeclared (x : Ctx) (pre : Bool) (hv : 94 ∈ x.c.version)
-    (huser : ∀ d ∈ x.c.requires, d.name ≠ rpmlibName fCaretInVersions) : ¬ RpmlibDeclared (C06.hdrOf x) pre := by
-  refine content_undeclared x pre (f := fCaretInVersions) ?_ (by decide) huser
-  have : evrHasChar (C06.hdrOf x) 94 = true := by
-    rw [evrHasChar_built, List.any_eq_true]
-    exact ⟨depEq x.c.name x.c.version, by simp [evrDeps, allProvides], by simpa [depEq] using hv⟩
-  simp [contentFeatures, this]
+/-- every requirement is the caller's, a structural rpmlib() one, or one of the four content ones -/
+theorem allRequires_cases {c : Cfg} {d : Dep} (h : d ∈ allRequires c) : d ∈ baseRequires c ∨ d ∈ contentDeps := by
+  unfold allRequires at h
+  rcases mem_pushFeature h with h | rfl
+  · rcases mem_pushFeature h with h | rfl
+    · rcases mem_pushFeature h with h | rfl
+      · rcases mem_pushFeature h with h | rfl
+        · exact Or.inl h
+        · exact Or.inr (by decide)
+      · exact Or.inr (by decide)
+    · exact Or.inr (by decide)
+  · exact Or.inr (by decide)
 
-/-- **REFUTED — RichDependencies** (`rpmlib(RichDependencies) <= 4.12.0-1`): a requirement whose name starts with "(" -/
-theorem rich_undeclared (x : Ctx) (pre : Bool) {d : Dep} (hd : d ∈ x.c.requires) (hr : d.name.head? = some 40)
-    (huser : ∀ d ∈ x.c.requires, d.name ≠ rpmlibName fRichDependencies) : ¬ RpmlibDeclared (C06.hdrOf x) pre := by
-  refine content_undeclared x pre (f := fRichDependencies) ?_ (by decide) huser
-  have : hasRichDep (C06.hdrOf x) = true := by
-    rw [hasRichDep_built, List.any_eq_true]
-    exact ⟨d, by simp [richDeps, allRequires, hd], by simp [hr]⟩
-  simp [contentFeatures, this]
+/-- the content requirements themselves use none of the features: versions without `~` / `^`, names not starting with "(" -/
+theorem contentDeps_clean : ∀ d ∈ contentDeps, 126 ∉ d.version ∧ 94 ∉ d.version ∧ d.name.head? ≠ some 40 := by decide
 
-/-- **REFUTED — ScriptletInterpreterArgs** (`rpmlib(ScriptletInterpreterArgs) <= 4.0.3-1`, build/parseScript.c): `%pre -p "<prog> <arg>"`,
-here `Scriptlet::prog(vec![prog, arg, …])` on the pre-install scriptlet -/
-theorem interp_args_undeclared (x : Ctx) (pre : Bool) {s : Scriptlet} {p : List Bytes} (hs : x.c.preIn = some s)
-    (hp : s.prog = some p) (hl : 1 < p.length)
-    (huser : ∀ d ∈ x.c.requires, d.name ≠ rpmlibName fScriptletInterpreterArgs) : ¬ RpmlibDeclared (C06.hdrOf x) pre := by
-  refine content_undeclared x pre (f := fScriptletInterpreterArgs) ?_ (by decide) huser
-  have : hasInterpArgs (C06.hdrOf x) = true := by
-    rw [hasInterpArgs_built, List.any_eq_true]
-    exact ⟨x.c.preIn, by simp [scriptletsOf], by simp [hs, progOf, hp, hl]⟩
-  simp [contentFeatures, this]
+theorem allRecommends_cases {c : Cfg} {d : Dep} (h : d ∈ allRecommends c) :
+    d ∈ c.recommends ∨ (d.version = [] ∧ d.name.head? ≠ some 40) := by
+  simp only [allRecommends, List.mem_append, List.mem_map] at h
+  rcases h with (h | ⟨u, _, rfl⟩) | ⟨g, _, rfl⟩
+  · exact Or.inl h
+  · exact Or.inr ⟨rfl, by simp [depUser]⟩
+  · exact Or.inr ⟨rfl, by simp [depGroup]⟩
 
-/-- `PlainFeatures` from the caller's own arguments: no `~` / `^` in the package version or in the version of any dependency handed
-to the builder, no dependency name starting with "(", at most one word per interpreter -/
-theorem plain_of_user {c : Cfg}
-    (hv : 126 ∉ c.version ∧ 94 ∉ c.version)
-    (hd : ∀ d ∈ c.provides ++ c.requires ++ c.obsoletes ++ c.conflicts ++ c.suggests ++ c.enhances ++ c.recommends ++ c.supplements,
-      126 ∉ d.version ∧ 94 ∉ d.version ∧ d.name.head? ≠ some 40)
-    (hs : ∀ s ∈ scriptletsOf c, (progOf s).length ≤ 1) : PlainFeatures c := by
-  have hprov : ∀ d ∈ allProvides c, 126 ∉ d.version ∧ 94 ∉ d.version := by
-    intro d h
-    simp only [allProvides, List.mem_append, List.mem_cons, List.mem_nil_iff, or_false] at h
-    rcases h with h | rfl | rfl
-    · exact ⟨(hd d (by simp [h])).1, (hd d (by simp [h])).2.1⟩
-    · exact hv
-    · exact hv
-  have hreq : ∀ d ∈ allRequires c, 126 ∉ d.version ∧ 94 ∉ d.version ∧ d.name.head? ≠ some 40 := by
-    intro d h
-    rcases allRequires_mem h with hu | ⟨hl, h1, h2⟩
-    · exact hd d (by simp [hu])
-    · refine ⟨h1, h2, ?_⟩
-      simp only [libRequireNames, List.mem_cons, List.mem_nil_iff, or_false] at hl
-      rcases hl with h | h | h | h | h | h | h | h <;> (rw [h]; decide)
-  have hrec : ∀ d ∈ allRecommends c, 126 ∉ d.version ∧ 94 ∉ d.version ∧ d.name.head? ≠ some 40 := by
-    intro d h
-    simp only [allRecommends, List.mem_append, List.mem_map] at h
-    rcases h with (h | ⟨u, _, rfl⟩) | ⟨g, _, rfl⟩
-    · exact hd d (by simp [h])
-    · exact ⟨by simp [depUser], by simp [depUser], by simp [depUser]⟩
-    · exact ⟨by simp [depGroup], by simp [depGroup], by simp [depGroup]⟩
-  have hall : ∀ d ∈ evrDeps c, 126 ∉ d.version ∧ 94 ∉ d.version := by
-    intro d h
-    simp only [evrDeps, List.mem_append] at h
-    rcases h with ((((((h | h) | h) | h) | h) | h) | h) | h
-    · exact hprov d h
-    · exact ⟨(hreq d h).1, (hreq d h).2.1⟩
-    · exact ⟨(hd d (by simp [h])).1, (hd d (by simp [h])).2.1⟩
-    · exact ⟨(hd d (by simp [h])).1, (hd d (by simp [h])).2.1⟩
-    · exact ⟨(hd d (by simp [h])).1, (hd d (by simp [h])).2.1⟩
-    · exact ⟨(hd d (by simp [h])).1, (hd d (by simp [h])).2.1⟩
-    · exact ⟨(hrec d h).1, (hrec d h).2.1⟩
-    · exact ⟨(hd d (by simp [h])).1, (hd d (by simp [h])).2.1⟩
-  refine ⟨fun d h => (hall d h).1, fun d h => (hall d h).2, ?_, hs⟩
-  intro d h
-  simp only [richDeps, List.mem_append] at h
-  rcases h with ((((h | h) | h) | h) | h) | h
-  · exact (hreq d h).2.2
-  · exact (hrec d h).2.2
-  · exact (hd d (by simp [h])).2.2
-  · exact (hd d (by simp [h])).2.2
-  · exact (hd d (by simp [h])).2.2
-  · exact (hd d (by simp [h])).2.2
+/-! #### rpm's three tests on the built header imply the builder's own tests -/
+
+theorem versionHas_of_header {x : Ctx} {ch : UInt8} (hch : ch = 126 ∨ ch = 94) (h : evrHasChar (C06.hdrOf x) ch = true) :
+    versionHas x.c ch = true := by
+  rw [evrHasChar_built, List.any_eq_true] at h
+  obtain ⟨d, hd, hc⟩ := h
+  have hc' : ch ∈ d.version := by simpa using hc
+  unfold versionHas
+  rw [List.any_eq_true]
+  refine ⟨d, ?_, hc⟩
+  simp only [evrDeps, List.mem_append] at hd
+  simp only [List.mem_append]
+  rcases hd with ((((((hd | hd) | hd) | hd) | hd) | hd) | hd) | hd
+  · exact Or.inl (Or.inl (Or.inl (Or.inl (Or.inl (Or.inl (Or.inl hd))))))
+  · rcases allRequires_cases hd with hb | hcd
+    · exact Or.inl (Or.inl (Or.inl (Or.inl (Or.inl (Or.inl (Or.inr hb))))))
+    · have := contentDeps_clean d hcd
+      rcases hch with rfl | rfl
+      · exact absurd hc' this.1
+      · exact absurd hc' this.2.1
+  · exact Or.inl (Or.inl (Or.inl (Or.inl (Or.inl (Or.inr hd)))))
+  · exact Or.inl (Or.inl (Or.inl (Or.inl (Or.inr hd))))
+  · exact Or.inl (Or.inl (Or.inr hd))
+  · exact Or.inl (Or.inr hd)
+  · rcases allRecommends_cases hd with hr | ⟨hv, _⟩
+    · exact Or.inl (Or.inl (Or.inl (Or.inr hr)))
+    · rw [hv] at hc'; cases hc'
+  · exact Or.inr hd
+
+theorem usesRichDeps_of_header {x : Ctx} (h : hasRichDep (C06.hdrOf x) = true) : usesRichDeps x.c = true := by
+  rw [hasRichDep_built, List.any_eq_true] at h
+  obtain ⟨d, hd, hc⟩ := h
+  have hc' : d.name.head? = some 40 := by simpa using hc
+  unfold usesRichDeps
+  rw [List.any_eq_true]
+  refine ⟨d, ?_, hc⟩
+  simp only [richDeps, List.mem_append] at hd
+  simp only [List.mem_append]
+  rcases hd with ((((hd | hd) | hd) | hd) | hd) | hd
+  · rcases allRequires_cases hd with hb | hcd
+    · exact Or.inl (Or.inl (Or.inl (Or.inl (Or.inl hb))))
+    · exact absurd hc' (contentDeps_clean d hcd).2.2
+  · rcases allRecommends_cases hd with hr | ⟨_, hn⟩
+    · exact Or.inl (Or.inl (Or.inl (Or.inl (Or.inr hr))))
+    · exact absurd hc' hn
+  · exact Or.inl (Or.inl (Or.inl (Or.inr hd)))
+  · exact Or.inl (Or.inl (Or.inr hd))
+  · exact Or.inl (Or.inr hd)
+  · exact Or.inr hd
+
+theorem usesInterpArgs_of_header {x : Ctx} (h : hasInterpArgs (C06.hdrOf x) = true) : usesInterpArgs x.c = true := by
+  rw [hasInterpArgs_built, List.any_eq_true] at h
+  obtain ⟨s, hs, hc⟩ := h
+  unfold usesInterpArgs
+  rw [List.any_eq_true]
+  refine ⟨s, ?_, ?_⟩
+  · simp only [scriptletsOf, List.mem_cons, List.mem_nil_iff, or_false] at hs
+    simp only [List.mem_cons, List.mem_nil_iff, or_false]
+    rcases hs with h | h | h | h | h | h | h | h | h <;> simp [h]
+  · unfold progOf at hc
+    cases hb : s.bind (·.prog) with
+    | none => simp [hb] at hc
+    | some p => simpa [hb] using hc
+
+/-- a used content feature is required by name in `allRequires` -/
+theorem content_declared (c : Cfg) :
+    (versionHas c 126 = true → rpmlibName fTildeInVersions ∈ (allRequires c).map (·.name)) ∧
+    (versionHas c 94 = true → rpmlibName fCaretInVersions ∈ (allRequires c).map (·.name)) ∧
+    (usesRichDeps c = true → rpmlibName fRichDependencies ∈ (allRequires c).map (·.name)) ∧
+    (usesInterpArgs c = true → rpmlibName fScriptletInterpreterArgs ∈ (allRequires c).map (·.name)) := by
+  refine ⟨?_, ?_, ?_, ?_⟩
+  · intro h; unfold allRequires; rw [h]
+    exact names_mono_pushFeature (names_mono_pushFeature (names_mono_pushFeature (name_mem_pushFeature _ _ _) _ _ _) _ _ _) _ _ _
+  · intro h; unfold allRequires; rw [h]
+    exact names_mono_pushFeature (names_mono_pushFeature (name_mem_pushFeature _ _ _) _ _ _) _ _ _
+  · intro h; unfold allRequires; rw [h]
+    exact names_mono_pushFeature (name_mem_pushFeature _ _ _) _ _ _
+  · intro h; unfold allRequires; rw [h]
+    exact name_mem_pushFeature _ _ _
+
+/-- **the built header declares every rpmlib() feature it uses** — all thirteen, for EVERY configuration (the four content
+features since the fix of builder.rs: before it this statement was false, see the history of this file) -/
+theorem build_rpmlib_valid (x : Ctx) (pre : Bool) : RpmlibDeclared (C06.hdrOf x) pre := by
+  intro f hf
+  simp only [featuresUsed, List.mem_append] at hf
+  rcases hf with hf | hf
+  · exact build_struct_features_declared x pre f hf
+  · obtain ⟨h1, h2, h3, h4⟩ := content_declared x.c
+    rw [requireNames_built]
+    simp only [contentFeatures, List.mem_append] at hf
+    rcases hf with ((hf | hf) | hf) | hf
+    · split at hf
+      · rename_i hu
+        simp only [List.mem_singleton] at hf; subst hf
+        exact h1 (versionHas_of_header (Or.inl rfl) hu)
+      · cases hf
+    · split at hf
+      · rename_i hu
+        simp only [List.mem_singleton] at hf; subst hf
+        exact h2 (versionHas_of_header (Or.inr rfl) hu)
+      · cases hf
+    · split at hf
+      · rename_i hu
+        simp only [List.mem_singleton] at hf; subst hf
+        exact h3 (usesRichDeps_of_header hu)
+      · cases hf
+    · split at hf
+      · rename_i hu
+        simp only [List.mem_singleton] at hf; subst hf
+        exact h4 (usesInterpArgs_of_header hu)
+      · cases hf
 
 
 /-! ## payload: the archive the builder writes -/
@@ -1049,9 +1062,8 @@ structure CfgOk (x : Ctx) (fes : List (FileE × Bytes)) : Prop where
 /-- **build_valid**: for every valid configuration and every sign / clear history (the signature header
 is whatever `SignatureHeaderBuilder` last built), the written package re-parses to the built value and
 satisfies every rule of `PackageValid` — lead, both headers, the signature header's limits, tag types, signature padding,
-compressor magic, PAYLOADFLAGS, rpmlib() features, cpio archive. The codec enters only through `CodecMagic`.
-PARTIAL in one respect: `hp : PlainFeatures x.c` — the statement without it is false of the current code (`tilde_undeclared`, …). -/
-theorem build_valid {x : Ctx} {fes : List (FileE × Bytes)} (ok : CfgOk x fes) (hp : PlainFeatures x.c)
+compressor magic, PAYLOADFLAGS, rpmlib() features (all thirteen), cpio archive. The codec enters only through `CodecMagic`. -/
+theorem build_valid {x : Ctx} {fes : List (FileE × Bytes)} (ok : CfgOk x fes)
     {sigs : List (Nat × Bytes × Bytes)} {sha : Bytes} (sok : SigsOk sigs sha)
     {uid gid : Nat} (hu : uid < 4294967296) (hg : gid < 4294967296)
     (payload : Bytes) (hc : CodecMagic x.c.compression payload (archiveFor x.c uid gid fes)) :
@@ -1074,7 +1086,7 @@ theorem build_valid {x : Ctx} {fes : List (FileE × Bytes)} (ok : CfgOk x fes) (
   · exact sigPadding_written p (C06.leadNew_wf _) (by
       show HeaderWF (signatureHeader sigs (some sha)); rw [signatureHeader_eq]; exact fromEntries_wf srec)
   · exact compressor_magic_valid x harch hc
-  · exact build_rpmlib_valid_partial x _ hp
+  · exact build_rpmlib_valid x _
   · show CpioValid (C06.hdrOf x) (archiveFor x.c uid gid fes)
     unfold archiveFor
     split
@@ -1295,12 +1307,9 @@ example : TagTypesOk (C06.hdrOf C06.sampleCtx) ∧ PayloadFlagsOk (C06.hdrOf C06
 /-- PAYLOADFLAGS as a STRING_ARRAY -/
 example : ¬ PayloadFlagsOk ⟨2, 0, [⟨63, .bin [], 0, 16⟩, ⟨1126, .strArray [[57]], 0, 1⟩], []⟩ := by decide
 
-/-! ### rpmlib(): the sample uses none of the four content features; four variants of it each use one, undeclared -/
+/-! ### rpmlib(): four variants of the sample each use one content feature — declared -/
 
-theorem sample_plain : PlainFeatures C06.sampleCfg :=
-  plain_of_user (by decide) (by decide) (by decide)
-
-example : RpmlibDeclared (C06.hdrOf C06.sampleCtx) true := build_rpmlib_valid_partial _ _ sample_plain
+example : RpmlibDeclared (C06.hdrOf C06.sampleCtx) true := build_rpmlib_valid _ _
 
 /-- version "1~rc" -/
 def tildeCtx : Ctx := { C06.sampleCtx with c := { C06.sampleCfg with version := [49, 126, 114, 99] } }
@@ -1311,17 +1320,23 @@ def richCtx : Ctx := { C06.sampleCtx with c := { C06.sampleCfg with requires := 
 /-- `%pre -p "/b -x"` -/
 def argsCtx : Ctx := { C06.sampleCtx with c := { C06.sampleCfg with preIn := some ⟨[101], some 1, some [[47, 98], [45, 120]]⟩ } }
 
-example : ¬ RpmlibDeclared (C06.hdrOf tildeCtx) true := tilde_undeclared tildeCtx true (by decide) (by decide)
-example : ¬ RpmlibDeclared (C06.hdrOf caretCtx) true := caret_undeclared caretCtx true (by decide) (by decide)
-example : ¬ RpmlibDeclared (C06.hdrOf richCtx) true :=
-  rich_undeclared richCtx true (d := ⟨[40, 97, 32, 111, 114, 32, 98, 41], 0, []⟩) (by decide) (by decide) (by decide)
-example : ¬ RpmlibDeclared (C06.hdrOf argsCtx) true :=
-  interp_args_undeclared argsCtx true (s := ⟨[101], some 1, some [[47, 98], [45, 120]]⟩) (p := [[47, 98], [45, 120]]) rfl rfl (by decide) (by decide)
-/-- … and the caller's own `requires(Dependency::rpmlib("TildeInVersions", "4.10.0-1"))` is what `huser` excludes -/
-example : ¬ (∀ d ∈ [rpmlib fTildeInVersions [52, 46, 49, 48, 46, 48, 45, 49]], d.name ≠ rpmlibName fTildeInVersions) := by decide
+example : versionHas tildeCtx.c 126 = true ∧ versionHas caretCtx.c 94 = true ∧ usesRichDeps richCtx.c = true ∧
+    usesInterpArgs argsCtx.c = true ∧ versionHas C06.sampleCfg 126 = false ∧ usesInterpArgs C06.sampleCfg = false := by decide +kernel
+example : rpmlibName fTildeInVersions ∈ (allRequires tildeCtx.c).map (·.name) ∧
+    rpmlibName fTildeInVersions ∉ (allRequires C06.sampleCfg).map (·.name) ∧
+    rpmlibName fScriptletInterpreterArgs ∈ (allRequires argsCtx.c).map (·.name) := by decide +kernel
+example : RpmlibDeclared (C06.hdrOf tildeCtx) true ∧ RpmlibDeclared (C06.hdrOf caretCtx) true ∧
+    RpmlibDeclared (C06.hdrOf richCtx) true ∧ RpmlibDeclared (C06.hdrOf argsCtx) true :=
+  ⟨build_rpmlib_valid _ _, build_rpmlib_valid _ _, build_rpmlib_valid _ _, build_rpmlib_valid _ _⟩
+/-- a requirement the caller wrote himself is not pushed a second time -/
+example : (allRequires { tildeCtx.c with requires := [rpmlib fTildeInVersions [52, 46, 49, 48, 46, 48, 45, 49]] }).length =
+    (baseRequires { tildeCtx.c with requires := [rpmlib fTildeInVersions [52, 46, 49, 48, 46, 48, 45, 49]] }).length := by decide +kernel
 /-- the rule names the driver reports -/
 example : contentRuleName fTildeInVersions = "rpmlib-tilde" ∧ contentRuleName fCaretInVersions = "rpmlib-caret" ∧
     contentRuleName fRichDependencies = "rpmlib-rich" ∧ contentRuleName fScriptletInterpreterArgs = "rpmlib-interp-args" := by decide
+/-- a header that uses `~` without the requirement is still a violation of the spec (what the builder emitted before the fix) -/
+example : ¬ RpmlibDeclared ⟨3, 0, [⟨63, .bin [], 0, 16⟩, ⟨1049, .strArray [rpmlibName fCompressedFileNames], 0, 1⟩,
+    ⟨1113, .strArray [[49, 126, 114, 99]], 0, 1⟩], []⟩ false := by decide +kernel
 
 /-! ### `history_foreign_valid`: a package that is `ForeignValid` (a name-only main header, no files, the bare trailer as payload) -/
 
